@@ -153,13 +153,13 @@ class MarkovChainLevyCopula(LevyProcess):
                 ]
             ]
         ).T
-        V = 0.0 if self.model.jump_of_finite_variation() else 1.0
+        V = [0.0 if model.jump_of_finite_variation() else 1.0 for model in models]
         mu_tilde = np.array(
             [
                 [
-                    model.levy_triplet.nu.integrate_against_x(-np.inf, -V)
-                    + model.levy_triplet.nu.integrate_against_x(V, np.inf)
-                    for model in models
+                    model.levy_triplet.nu.integrate_against_x(-np.inf, -v)
+                    + model.levy_triplet.nu.integrate_against_x(v, np.inf)
+                    for model, v in zip(models, V)
                 ]
             ]
         ).T
